@@ -15,8 +15,8 @@ CONF = dict(
  '(lucky: the prefix holds the lower delays); a newly constructed filter runs the same suffix; the two output lists must be identical and equal to the model; non-trivial: '
  'lucky with capacity >= 2 and >= 2 samples before the Reset, Ntimed with >= 4 samples before and >= 5 after the Reset and a replaced midpoint (branch 2/3) after it. '
  'lucky.wild / ntimed.wild: histories made of degenerate and out-of-range samples (identical timestamps, zero delay, negative round trip, negative processing time, hi < lo, '
- 'one-way differences in [2^62, 2^63) ns, saturating differences beyond 292 years in one or both directions, the corner lo + hi >= 2^64 - 2^14, its surroundings and its mirror image), '
- 'all non-trivial. Ties on windows of at most 12 samples are compared exactly (stable insertion sort), on longer windows relationally; '
+ 'one-way differences in [2^62, 2^63) ns, saturating differences beyond 292 years in one or both directions, the surroundings of the corner lo + hi >= 2^64 - 2^14 and its mirror image; the corner itself only for the lucky-packet filter), '
+ 'all non-trivial. ntimed.corner: 11 scripted one-sample histories around the corner (sRx = sTx = 0, cTx and cRx between 2^63 - 30001 and 2^63 + 5 ns), strict oracle. Ties on windows of at most 12 samples are compared exactly (stable insertion sort), on longer windows relationally; '
  'distinct = distinct (kind, input)'),
     assumptions=['float64 arithmetic of Go on amd64 = IEEE-754 binary64 round-to-nearest-even without FMA contraction, math.Sqrt = correctly rounded SQRTSD (Flocq '
  'BinarySingleNaN); int64(float64) = CVTTSD2SQ (-2^63 when out of range)',
@@ -25,9 +25,10 @@ CONF = dict(
  'tied delays on longer windows (pdqsort proper) are only compared relationally',
  'time.Time as unbounded nanoseconds, Time.Sub saturating; lucky-packet oracle for offsets below 2^62 ns (no int64 wrap in the even-count midpoint); '
  'numeric closeness of the Ntimed raw offset stated and proved for the model on every sample: against ntp.ClockOffset for one-way differences below 2^62 ns, against the offset over '
- 'the integers -(lo+hi)/2 of the saturated differences beyond (ntp.ClockOffset itself wraps there), tolerance 2 ns + 2^-50 relative; named observation (not an alarm): in the corner '
- 'lo + hi >= 2^64 - 2^14 (both one-way differences within 8 us of +292 years) float64 mid*1e9 rounds to 2^63, int64() of it is -2^63 and timemath.Inv returns MaxInt64, i.e. +292 years for an '
- 'offset of -292 years; the oracle tolerates exactly that value there (C17_ntimed_raw_corner, C17_ntimed_corner_example)',
+ 'the integers -(lo+hi)/2 of the saturated differences beyond (ntp.ClockOffset itself wraps there), tolerance 2 ns + 2^-50 relative, judged strictly everywhere; finding '
+ 'ntimed-corner-wrong-sign (KNOWN_FINDINGS.txt): in the corner lo + hi >= 2^64 - 2^14 (both one-way differences within 8 us of +292 years) float64 mid*1e9 rounds to 2^63, int64() of it '
+ 'is -2^63 and timemath.Inv returns MaxInt64, i.e. +292 years for an offset of -292 years; corner samples are generated only under the kind ntimed.corner (11 scripted one-sample histories, '
+ '4 of them wrong-sign = the known finding, 7 fine), the theorems C17_ntimed_oracle / _raw_close_oracle exclude the corner and C17_ntimed_sign_refuted / _oracle_refuted exhibit it',
  'the epoch the filter sees is what the registered clock reports during the call (fake clock scripted per call)'],
     trusted=['Flocq 4 (IEEE754.BinarySingleNaN) as the float64 semantics; theorems about the Ntimed model depend on the four standard-library axioms Flocq uses; the '
  'lucky-packet theorems are closed under the global context',
@@ -44,7 +45,7 @@ CONF = dict(
     level_note=('The numeric clause is proved (C17_ntimed_raw_close, _raw_sign, _raw_close_oracle): |raw_f - ClockOffset| <= 2 ns + 2^-50 relative and same sign for all samples '
  'with one-way differences below 2^62 ns, from the Flocq semantics (four roundings at 2^-53 relative + underflow term, exact int->float below 2^53, truncating float->int); '
  'within 1 ns while |lo|+|hi| < 2^50 ns (C17_ntimed_raw_close_1ns); beyond 2^62 ns (Time.Sub saturating) the same bound against -(lo+hi)/2 over the integers (C17_ntimed_raw_wide), '
- 'with the one named corner (C17_ntimed_raw_corner); hence C17_ntimed_oracle holds for all histories without hypothesis. Reset equals fresh is proved for all states of both filters '
+ 'except in the corner lo + hi >= 2^64 - 2^14 where the sign clause is REFUTED (C17_ntimed_sign_refuted, C17_ntimed_raw_corner; known finding ntimed-corner-wrong-sign); C17_ntimed_oracle holds for all histories without a corner sample. Reset equals fresh is proved for all states of both filters '
  '(C17_lucky_reset_fresh/_state, C17_ntimed_reset_fresh/_state/_epoch_fresh) and checked on the implementation by the reset kinds. Ties: exact for windows of at most 12 samples '
  '(C17_lucky_ties: Go\'s insertion sort = stable sort, the older sample of equal delay is kept; the oracle judges these windows too); windows of 13 and more samples with tied delays '
  '(pdqsort proper, not modelled) are accepted by an executable relation (some choice among the tied samples) without a soundness theorem. "Within the learned bounds" is evaluated '
@@ -55,5 +56,5 @@ CONF = dict(
  'C17_lucky_ties: equal delays keep the older sample (windows up to 12); C17_ntimed_raw_wide/_corner: behaviour beyond 2^62 ns; C17_ntimed_oracle: the model meets the whole Ntimed oracle on all histories.'),
     timeout_quick=600,
     timeout_thorough=3000,
-    min_cases={'lucky.hist': 361, 'lucky.new': 9, 'lucky.reset': 120, 'lucky.wild': 90, 'ntimed.hist': 360, 'ntimed.reset': 120, 'ntimed.wild': 90},
+    min_cases={'lucky.hist': 361, 'lucky.new': 9, 'lucky.reset': 120, 'lucky.wild': 90, 'ntimed.corner': 11, 'ntimed.hist': 360, 'ntimed.reset': 120, 'ntimed.wild': 90},
 )
